@@ -247,6 +247,24 @@ func (c Collection) characterizeAndFlatten(nonStaticTypes map[typeCode]bool) ([]
 		c.reorderNonFinal()
 	}
 
+	// A provider marked Reorder may end up anywhere in the chain, so what a
+	// Reorder'd per-invocation provider outputs is non-static no matter where
+	// it is listed: a Cacheable consumer listed before it must not be hoisted.
+	for ii, fm := range c.contents {
+		if !fm.reorder || fm.fatal != nil {
+			continue
+		}
+		cfm, err := characterizeFunc(fm, charContext{
+			isLast:          ii == len(c.contents)-1,
+			inputsAreStatic: true,
+		})
+		if err == nil && cfm.group == runGroup {
+			for _, out := range cfm.flows[outputParams] {
+				nonStaticTypes[out] = true
+			}
+		}
+	}
+
 	for ii, fm := range c.contents {
 		cc := charContext{
 			isLast:          ii == len(c.contents)-1,
